@@ -40,6 +40,12 @@ def is_big(x):
     return x > 1
 
 
+@predicate
+def within(x, low=0, high=10):
+    """a predicate with defaulted parameters (called with positional and keyword arguments)"""
+    return low <= x <= high
+
+
 @dataclass(eq=False)
 class Small(Predicate):
     """Predicate subclass: instantiated by the engine for every candidate while a query is evaluated."""
@@ -102,7 +108,9 @@ class C08(Case):
             o = Thing(5)
             real = type(o) is Thing
             p = is_big(3)
-            executed = p is True
+            # outside every block a @predicate behaves as the plain function, whatever the way its arguments are passed
+            executed = (p is True and within(1, 3) is False and within(3, 3, 4) is True and within(5, high=4) is False
+                        and within(5) is True) if p is True else False
             try:
                 x.a
                 rejected = False
